@@ -53,7 +53,7 @@ TraceInit ==
     /\ s = FreshS(<<>>) /\ loc = NewLoc("trace")
     /\ rank = <<>> /\ ok = <<>> /\ disk = Null
     /\ proc = [st |-> "run", stops |-> 0, code |-> 0]
-    /\ aux = [running |-> FALSE, last |-> "none", doneSeen |-> FALSE, itsum |-> 0]
+    /\ aux = [running |-> FALSE, last |-> "none", doneSeen |-> FALSE, itsum |-> 0, pacc |-> 0]
 
 Keep == UNCHANGED <<loc, proc>>
 Mark(name) == aux' = [aux EXCEPT !.last = name]
@@ -140,6 +140,27 @@ EvPopulate(e) ==
     /\ P("C09", "pool_indices_each_once", e.perm)
     /\ P("C09", "pool_inside_latent_contour", e.in_contour)
     /\ Mark("populate") /\ UNCHANGED <<s, rank, ok, disk>>
+
+\* ---- the rejection-sampling batches of a population (guarded hooks; Pool.tla)
+\* acceptance IS rejection sampling with weights prior/proposal normalised by their maximum:
+\* a candidate is kept iff  log w - max log w > log u
+EvPBatch(e) ==
+    /\ P("C09", "acceptance_is_the_rejection_rule", e.mask_ok)
+    /\ P("C09", "weights_normalised_by_their_maximum", e.norm_ok)
+    /\ M("pbatch: accepted count does not continue the population (Pool.tla, mode batch)",
+         (e.mode = "batch" /\ e.n_before > 0) => e.n_before = aux.pacc)
+    /\ aux' = [aux EXCEPT !.pacc = IF e.mode = "batch"
+                                   THEN (IF e.n_before <= 0 THEN 0 ELSE aux.pacc) + e.n_acc
+                                   ELSE e.n_acc]
+    /\ UNCHANGED <<s, rank, ok, disk>>
+
+\* the pool is the first N accepted candidates, in proposal order (Pool.tla: PoolIsPrefix, SizeWhenDone)
+EvPPool(e) ==
+    /\ P("C09", "pool_is_the_first_N_accepted_in_order", e.prefix_ok)
+    /\ P("C09", "flow_pool_has_exactly_the_requested_size", e.accumulate \/ e.n = e.n_target)
+    /\ P("C09", "pool_never_larger_than_requested", e.n <= e.n_target)
+    /\ M("ppool: size is not min(N, accepted)", e.n = (IF aux.pacc < e.n_target THEN aux.pacc ELSE e.n_target))
+    /\ UNCHANGED <<s, rank, ok, disk, aux>>
 
 EvOutside(e) ==
     /\ P("C09", "likelihood_called_outside_support", FALSE)
@@ -250,6 +271,8 @@ TraceStep ==
            [] e.ev = "iter"       -> EvIter(e)
            [] e.ev = "populate"   -> EvPopulate(e)
            [] e.ev = "ll_outside" -> EvOutside(e)
+           [] e.ev = "pbatch"     -> EvPBatch(e)
+           [] e.ev = "ppool"      -> EvPPool(e)
            [] e.ev = "ckpt"       -> EvCkpt(e)
            [] e.ev = "resume"     -> EvResume(e)
            [] e.ev = "finalise"   -> EvFinalise(e)
